@@ -50,8 +50,31 @@ def _run(cmd, text, wall):
 	return verdict, time.time() - t0
 
 
-def run_z3(text, rlimit=None, wall=None, binary=None):
-	return _run([binary or Z3_BIN, '-smt2', f'rlimit={rlimit or RLIMIT}'], text, wall or WALL)
+def run_z3(text, rlimit=None, wall=None, binary=None, extra=()):
+	return _run([binary or Z3_BIN, '-smt2', f'rlimit={rlimit or RLIMIT}'] + list(extra), text, wall or WALL)
+
+
+def portfolio(text, expect_sat=False):
+	"""z3 5.1 (default, then E-matching only, then another seed), z3 4.8.12, cvc5: first definite answer wins.
+	Budgets are rlimits (deterministic); the wall clock is a safety net."""
+	total = 0.0
+	attempts = [
+		('z3-5.1', lambda: run_z3(text, rlimit=RLIMIT // 4, wall=WALL // 2)),
+		('z3-5.1/ematching', lambda: run_z3(text, rlimit=RLIMIT // 4, wall=WALL // 2, extra=['smt.mbqi=false'])),
+		('z3-4.8.12', lambda: run_z3(text, rlimit=RLIMIT // 4, wall=WALL // 2, binary=Z3_OLD)),
+		('cvc5-1.0.3', lambda: run_cvc5(text, wall=WALL // 2)),
+		('z3-5.1/seed7', lambda: run_z3(text, rlimit=RLIMIT, wall=WALL, extra=['smt.random_seed=7', 'sat.random_seed=7'])),
+	]
+	last = 'unknown'
+	for name, f in attempts:
+		v, secs = f()
+		total += secs
+		if v in ('sat', 'unsat'):
+			if v == 'sat' and name == 'z3-5.1/ematching':
+				continue
+			return v, name, total
+		last = v if not v.startswith('error') else last
+	return last, 'none', total
 
 
 def run_cvc5(text, wall=None):
@@ -90,21 +113,14 @@ def discharge(obligations, jobs=16, both=False, log=None):
 	def work(ob):
 		expect_sat = ob.meta.get('expect') == 'sat'
 		text = texts[id(ob)]
-		v, secs = run_z3(text)
-		backend = 'z3-' + ('5.1' if Z3_BIN == 'z3-new' else 'cli')
+		v, backend, secs = portfolio(text, expect_sat)
 		second = None
-		if v == 'unknown' or v.startswith('error') or (both and not expect_sat):
+		if both and not expect_sat and v in ('sat', 'unsat') and not backend.startswith('cvc5'):
 			v2, s2 = run_cvc5(text)
 			secs += s2
-			if v == 'unknown' or v.startswith('error'):
-				if v2 in ('sat', 'unsat'):
-					v, backend = v2, 'cvc5-1.0.3'
-				elif v.startswith('error'):
-					v = 'unknown'
-			else:
-				second = v2
-				if v2 in ('sat', 'unsat') and v2 != v:
-					v = f'error:solvers disagree z3={v} cvc5={v2}'
+			second = v2
+			if v2 in ('sat', 'unsat') and v2 != v:
+				v = f'error:solvers disagree {backend}={v} cvc5={v2}'
 		return ob, v, backend, secs, second
 
 	with ThreadPoolExecutor(max_workers=jobs) as ex:
